@@ -174,25 +174,25 @@ package main
 //@   at call NewEncoder: ghost libenc = ref(result)
 //@   before call processAttack: assert [results-written-by-the-library-encoder-itself] ref(arg2) == libenc
 //@   forbid [only-the-signal-pump-stops-the-attack] call Stop
-//@   before call NewJSONTargeter: assert [default-body-and-headers-forwarded] (opts.bodyf != "" ==> bodyRead) && arg1 == body && arg2 == opts.headers.Header
-//@   before call NewHTTPTargeter: assert [default-body-and-headers-forwarded] (opts.bodyf != "" ==> bodyRead) && arg1 == body && arg2 == opts.headers.Header
-//@   before call Redirects: assert [flag-forwarded-unchanged] arg0 == opts.redirects
-//@   before call Timeout: assert [flag-forwarded-unchanged] arg0 == opts.timeout
-//@   before call Workers: assert [flag-forwarded-unchanged] arg0 == opts.workers
-//@   before call MaxWorkers: assert [flag-forwarded-unchanged] arg0 == opts.maxWorkers
-//@   before call KeepAlive: assert [flag-forwarded-unchanged] arg0 == opts.keepalive
-//@   before call Connections: assert [flag-forwarded-unchanged] arg0 == opts.connections
-//@   before call MaxConnections: assert [flag-forwarded-unchanged] arg0 == opts.maxConnections
-//@   before call HTTP2: assert [flag-forwarded-unchanged] arg0 == opts.http2
-//@   before call H2C: assert [flag-forwarded-unchanged] arg0 == opts.h2c
-//@   before call MaxBody: assert [flag-forwarded-unchanged] arg0 == opts.maxBody
-//@   before call UnixSocket: assert [flag-forwarded-unchanged] arg0 == opts.unixSocket
-//@   before call ChunkedBody: assert [flag-forwarded-unchanged] arg0 == opts.chunked
-//@   before call DNSCaching: assert [flag-forwarded-unchanged] arg0 == opts.dnsTTL
-//@   before call ConnectTo: assert [flag-forwarded-unchanged] arg0 == opts.connectTo
-//@   before call SessionTickets: assert [flag-forwarded-unchanged] arg0 == opts.sessionTickets
-//@   before call ProxyHeader: assert [flag-forwarded-unchanged] arg0 == opts.proxyHeaders.Header
-//@   before call Attack: assert [rate-duration-and-name-forwarded-unchanged] arg2 == boxof(opts.rate) && arg3 == opts.duration && arg4 == opts.name ;
+//@   before call NewJSONTargeter: assert [default-body-and-headers-forwarded] (opts.bodyf != "" ==> bodyRead) && arg1 == body && arg2 == old(opts.headers.Header)
+//@   before call NewHTTPTargeter: assert [default-body-and-headers-forwarded] (opts.bodyf != "" ==> bodyRead) && arg1 == body && arg2 == old(opts.headers.Header)
+//@   before call Redirects: assert [flag-forwarded-unchanged] arg0 == old(opts.redirects)
+//@   before call Timeout: assert [flag-forwarded-unchanged] arg0 == old(opts.timeout)
+//@   before call Workers: assert [flag-forwarded-unchanged] arg0 == old(opts.workers)
+//@   before call MaxWorkers: assert [flag-forwarded-unchanged] arg0 == old(opts.maxWorkers)
+//@   before call KeepAlive: assert [flag-forwarded-unchanged] arg0 == old(opts.keepalive)
+//@   before call Connections: assert [flag-forwarded-unchanged] arg0 == old(opts.connections)
+//@   before call MaxConnections: assert [flag-forwarded-unchanged] arg0 == old(opts.maxConnections)
+//@   before call HTTP2: assert [flag-forwarded-unchanged] arg0 == old(opts.http)2
+//@   before call H2C: assert [flag-forwarded-unchanged] arg0 == old(opts.h)2c
+//@   before call MaxBody: assert [flag-forwarded-unchanged] arg0 == old(opts.maxBody)
+//@   before call UnixSocket: assert [flag-forwarded-unchanged] arg0 == old(opts.unixSocket)
+//@   before call ChunkedBody: assert [flag-forwarded-unchanged] arg0 == old(opts.chunked)
+//@   before call DNSCaching: assert [flag-forwarded-unchanged] arg0 == old(opts.dnsTTL)
+//@   before call ConnectTo: assert [flag-forwarded-unchanged] arg0 == old(opts.connectTo)
+//@   before call SessionTickets: assert [flag-forwarded-unchanged] arg0 == old(opts.sessionTickets)
+//@   before call ProxyHeader: assert [flag-forwarded-unchanged] arg0 == old(opts.proxyHeaders.Header)
+//@   before call Attack: assert [rate-duration-and-name-forwarded-unchanged] arg2 == boxof(old(opts.rate)) && arg3 == old(opts.duration) && arg4 == old(opts.name) ;
 //@        assert [attack-draws-from-the-library-targeter-itself] ref(arg1) == libtr
 //@   ensures [unlimited-rate-demands-max-workers] old(opts.maxWorkers) == 18446744073709551615 && old(opts.rate.Freq) == 0 ==> err != nil && !attacked
 //@   loop 1
